@@ -101,4 +101,91 @@ theorem permute_makes_place (stage : Nat) (row : Row) (P : Places)
   · simp only [hl, Bool.false_eq_true, if_false] at hc ⊢
     exact permuteAux_makes_place stage P 1 row hc p hp h1 hps
 
+theorem permuteAux_swaps_unnamed (stage : Nat) (P : Places) :
+    ∀ (i : Nat) (l : Row), Consistent stage P i →
+      ∀ p, p ∉ P → i ≤ p → p < stage → p - i + 1 < l.length → unmade P i p % 2 = 0 →
+        (permuteAux stage P i l)[p - i]? = l[p - i + 1]? ∧ (permuteAux stage P i l)[p - i + 1]? = l[p - i]? := by
+  intro i l
+  fun_induction permuteAux stage P i l with
+  | case1 i a b rest h1 h2 ih =>
+    intro hc p hp hip hps hlen hev
+    have hpi : p ≠ i := by intro e; subst e; exact hp h2
+    have hlt : i + 1 ≤ p := by omega
+    have hc' : Consistent stage P (i + 1) := by
+      intro q hq hiq hqs
+      have := hc q hq (by omega) hqs
+      rw [unmade_step P i q (by omega)] at this
+      simpa [h2] using this
+    have hev' : unmade P (i + 1) p % 2 = 0 := by
+      rw [unmade_step P i p (by omega)] at hev
+      simpa [h2] using hev
+    have := ih hc' p hp hlt hps (by simp at hlen ⊢; omega) hev'
+    have e : p - i = (p - (i + 1)) + 1 := by omega
+    rw [e]
+    simpa using this
+  | case2 i a b rest h1 h2 ih =>
+    intro hc p hp hip hps hlen hev
+    have hn1 : (i + 1) ∉ P := by
+      intro hin
+      have := hc (i + 1) hin (by omega) (by omega)
+      rw [unmade_step P i (i + 1) (by omega), unmade_self] at this
+      simp [h2] at this
+    by_cases hpi : p = i
+    · subst hpi; simp
+    · have hp1 : p ≠ i + 1 := by
+        intro e; subst e
+        rw [unmade_step P i (i + 1) (by omega), unmade_self] at hev
+        simp [h2] at hev
+      have hlt : i + 2 ≤ p := by omega
+      have hc' : Consistent stage P (i + 2) := by
+        intro q hq hiq hqs
+        have := hc q hq (by omega) hqs
+        rw [unmade_step P i q (by omega), unmade_step P (i + 1) q (by omega)] at this
+        simp only [h2, hn1, if_false] at this
+        have e2 : i + 1 + 1 = i + 2 := rfl
+        rw [e2] at this
+        omega
+      have hev' : unmade P (i + 2) p % 2 = 0 := by
+        rw [unmade_step P i p (by omega), unmade_step P (i + 1) p (by omega)] at hev
+        simp only [h2, hn1, if_false] at hev
+        have e2 : i + 1 + 1 = i + 2 := rfl
+        rw [e2] at hev
+        omega
+      have := ih hc' p hp hlt hps (by simp at hlen ⊢; omega) hev'
+      have e : p - i = (p - (i + 2)) + 2 := by omega
+      rw [e]
+      simpa using this
+  | case3 i a b rest h1 => intro _ p _ hip hps _ _; omega
+  | case4 i l h =>
+    intro _ p _ _ _ hlen _
+    exfalso
+    match l, h with
+    | [], _ => simp at hlen
+    | [_], _ => simp at hlen
+    | a :: b :: rest, h => exact h a b rest rfl
+
+/-- **The unnamed places swap in pairs**: in a parity-consistent change the bell in an unnamed place
+`p < stage` that has an even number of unnamed places before it changes places with its right-hand
+neighbour (which is unnamed too). -/
+theorem permute_swaps_unnamed (stage : Nat) (row : Row) (P : Places)
+    (hc : Consistent stage P (if implicitLead P then 2 else 1)) (p : Nat) (hp : p ∉ P)
+    (h1 : (if implicitLead P then 2 else 1) ≤ p) (hps : p < stage) (hlen : p < row.length)
+    (hev : unmade P (if implicitLead P then 2 else 1) p % 2 = 0) :
+    (permute stage row P)[p - 1]? = row[p]? ∧ (permute stage row P)[p]? = row[p - 1]? := by
+  unfold permute
+  by_cases hl : implicitLead P = true
+  · simp only [hl, if_true] at hc h1 hev ⊢
+    cases row with
+    | nil => simp at hlen
+    | cons a rest =>
+      obtain ⟨k, rfl⟩ : ∃ k, p = k + 2 := ⟨p - 2, by omega⟩
+      have := permuteAux_swaps_unnamed stage P 2 rest hc (k + 2) hp h1 hps (by simp at hlen; omega) hev
+      simp only [Nat.add_sub_cancel] at this
+      simp only [show k + 2 - 1 = k + 1 from rfl, List.getElem?_cons_succ]
+      exact this
+  · have hl' : implicitLead P = false := by simpa using hl
+    simp only [hl', Bool.false_eq_true, if_false] at hc h1 hev ⊢
+    obtain ⟨k, rfl⟩ : ∃ k, p = k + 1 := ⟨p - 1, by omega⟩
+    have := permuteAux_swaps_unnamed stage P 1 row hc (k + 1) hp h1 hps (by omega) hev
+    simpa using this
 end Wheatley
